@@ -12,6 +12,7 @@ mod c10;
 mod c11;
 mod c12;
 mod c13;
+mod c14;
 mod c16;
 mod c20;
 mod prio3;
@@ -49,6 +50,7 @@ fn main() {
         "C11" => c11::run(&mut out, thorough, seed),
         "C12" => c12::run(&mut out, thorough, seed),
         "C13" => c13::run(&mut out, thorough, seed),
+        "C14" => c14::run(&mut out, thorough, seed),
         "C16" => c16::run(&mut out, thorough, seed),
         "C20" => c20::run(&mut out, thorough, seed),
         "C07" | "C08" => codec::run(&mut out, thorough, seed, prop),
